@@ -157,6 +157,9 @@ func (s *Sim) checkPerio(ctx *StepCtx) {
 	if ctx.Kind == "deliver" {
 		return // registrations change inside the step: judged at the next idle stretch
 	}
+	if s.heldJudge && s.heldAmbig {
+		return
+	}
 	cur := m.registered()
 	reg := cur
 	if s.heldJudge && s.heldReg != nil {
@@ -245,8 +248,16 @@ func (s *Sim) checkPerio(ctx *StepCtx) {
 				}
 				seen[k] = true
 			}
+			refused := reqs[i].Errno != 0
 			i++
 			n++
+			if refused {
+				// the data plane answered this query with an error of its own (a URR named
+				// in it was removed meanwhile): what it names has been judged above; go-upf
+				// gives the rest of the tick up
+				abandoned = true
+				break
+			}
 		}
 		if sure != need && !abandoned {
 			var missing []RuleKey
